@@ -4,7 +4,7 @@ which property, what it needs to manifest, what was run to confirm it and which 
 import json, os, re, sys, glob, shutil
 V = "/verif"
 NOTES = json.load(open(os.path.join(V, "seeded", "notes.json"))) if os.path.exists(os.path.join(V, "seeded", "notes.json")) else {}
-for d in sorted(glob.glob(os.path.join(V, "seeded", "C*_m*"))):
+for d in sorted(glob.glob(os.path.join(V, "seeded", "C*_*m[12]"))):
     name = os.path.basename(d)
     prop, mn = name.split("_")
     res = json.load(open(os.path.join(d, "result.json")))
